@@ -29,6 +29,7 @@ type rcmd struct {
 	F     []byte   `json:"f,omitempty"`
 	V     []byte   `json:"v,omitempty"`
 	Score float64  `json:"score,omitempty"`
+	Inf   int      `json:"inf,omitempty"` // +1 / -1: the score is +Inf / -Inf (JSON has no spelling for them)
 	TTL   int      `json:"ttl,omitempty"` // 0 none, 1 = +1h, -1 = -1h
 	Opt   *kvh.Opt `json:"opt,omitempty"`
 }
@@ -408,6 +409,9 @@ func (r *redisRunner) step(c rcmd) (fail *kvh.Fail) {
 		}
 		r.aggUpdates++
 	case "zadd":
+		if c.Inf != 0 {
+			c.Score = math.Inf(c.Inf)
+		}
 		isNew, err := r.dts.ZAdd(c.Key, c.Score, c.F)
 		if wrong {
 			return wantWrong(err)
@@ -506,7 +510,9 @@ var (
 	// (score, member) pairs must stay apart whatever their bytes are
 	c19Fields = [][]byte{[]byte("f1"), []byte("f2"), []byte("x"), {0x00, 0xff}, []byte("0"), []byte("10"), []byte("1x")}
 	// distinct scores, among them pairs that differ only in the last bits (an update must still be an update)
-	c19Scores = []float64{-2.5, 0, 0.5, math.Nextafter(0.5, 1), 1, 3, 100, 100.00000001, 1e10, 1e10 + 1, -0.001, 1.7e12, 1.70000000025e12}
+	c19Scores = []float64{-2.5, 0, 0.5, math.Nextafter(0.5, 1), 1, 3, 100, 100.00000001, 1e10, 1e10 + 1, -0.001, 1.7e12, 1.70000000025e12,
+		// the ends of the float64 range: beyond the 64-bit integers, the largest and the smallest magnitudes, 2^53 and its neighbour
+		9223372036854775808, 1e19, -1e30, math.MaxFloat64, -math.MaxFloat64, math.SmallestNonzeroFloat64, 1e-7, 9007199254740992, 9007199254740994, -9223372036854775808}
 	// values whose leading bytes look like (over-long) varints, like a metadata record of another type, or are all zero
 	c19BinaryValues = [][]byte{
 		bytes.Repeat([]byte{0xff}, 12), append(bytes.Repeat([]byte{0x80}, 10), 'x'), bytes.Repeat([]byte{0xff}, 9), {0x80},
@@ -613,6 +619,9 @@ func c19Run(t *rapid.T, st *kvh.Stats) {
 				}
 			case "zadd":
 				cmd.Score = kvh.Pick(t, c19Scores, "score")
+				if kvh.Pct(t, 4, "infscore") {
+					cmd.Score, cmd.Inf = 0, 1-2*kvh.U(t, 2, "infsign")
+				}
 			}
 			switch cmd.C {
 			case "hset", "hget", "hdel", "sadd", "sismember", "srem", "zadd", "zscore":
